@@ -87,6 +87,9 @@ func (e *establishedLink) acceptStreamPump(ctx context.Context) {
 		_ = e.di.CloseIfUnreferenced(false)
 		e.cancel()
 		lnk.Close()
+		// the link no longer accepts streams: make sure it is not left registered
+		// (e.g. if its loss was reported before the establish event was applied).
+		ctrl.handleLinkClosed(e)
 	}()
 
 	for {
